@@ -13,12 +13,19 @@ pub enum Ev {
     LeaderNotify { node: u32, leader: Option<u32>, term: u64 },
     /// commit notification (NewCommitData) emitted by `node`
     Commit { node: u32, index: u64, role: i32, term: u64 },
+    /// at the moment leader `node` moved its commit index to `index`: which of its voters held that entry
+    CommitQuorum { node: u32, index: u64, leader_term: u64, entry_term: u64, holders: Vec<u32>, voters: Vec<u32>, config_in_range: bool },
     NodeStart { node: u32, incarnation: u32, term: u64, voted_for: Option<(u32, u64)>, last_applied: u64, log_last: u64 },
     NodeStop { node: u32, incarnation: u32, graceful: bool },
     Fault { what: String },
     ClientInvoke { op: u64, node: u32, what: String },
     ClientReturn { op: u64, outcome: String },
     Note { what: String },
+    /// a JoinCluster request was answered (duplicate = scripted re-join of an id; member_before = the leader
+    /// already listed that id when the request was sent)
+    JoinResp { learner: u32, leader: u32, success: bool, duplicate: bool, member_before: bool },
+    /// membership view of `node` changed (sampled at checkpoints): voters = members with status Active
+    Membership { node: u32, incarnation: u32, voters: Vec<u32>, learners: Vec<u32>, last_applied: u64 },
 }
 
 #[derive(Default, Debug)]
